@@ -99,3 +99,74 @@ pub fn char_reader_run(chunks: Vec<Vec<u8>>, script: &str) -> Vec<String> {
 
     out
 }
+
+// ---------------------------------------------------------------------------
+// Heap driver: a stand-alone `Heap` whose operations and accounting
+// (`byte_len`, `byte_cap`) can be observed from outside the crate.
+
+/// A stand-alone term heap driven by the verification harness.
+pub struct VHeap {
+    heap: crate::machine::heap::Heap,
+}
+
+impl VHeap {
+    /// A heap with room for `cells` cells, or `None` if the allocation fails.
+    pub fn with_cell_capacity(cells: usize) -> Option<Self> {
+        crate::machine::heap::Heap::with_cell_capacity(cells)
+            .ok()
+            .map(|heap| VHeap { heap })
+    }
+    /// Bytes in use.
+    pub fn byte_len(&self) -> usize {
+        self.heap.byte_len()
+    }
+    /// Bytes reserved.
+    pub fn byte_cap(&self) -> usize {
+        self.heap.byte_cap()
+    }
+    /// `Heap::push_cell` of an empty-list cell; `false` on allocation failure.
+    pub fn push_cell(&mut self) -> bool {
+        use crate::atom_table::*;
+        use crate::types::*;
+        self.heap.push_cell(empty_list_as_cell!()).is_ok()
+    }
+    /// `Heap::allocate_pstr`; `false` on allocation failure.
+    pub fn allocate_pstr(&mut self, s: &str) -> bool {
+        self.heap.allocate_pstr(s).is_ok()
+    }
+    /// `Heap::allocate_cstr`; `false` on allocation failure.
+    pub fn allocate_cstr(&mut self, s: &str) -> bool {
+        self.heap.allocate_cstr(s).is_ok()
+    }
+    /// `Heap::copy_pstr_within(byte_loc)`: the tail cell index, or `None` on allocation failure.
+    pub fn copy_pstr_within(&mut self, byte_loc: usize) -> Option<usize> {
+        self.heap.copy_pstr_within(byte_loc).ok()
+    }
+    /// `Heap::reserve(n)` without writing anything; `false` on allocation failure.
+    pub fn reserve(&mut self, n: usize) -> bool {
+        self.heap.reserve(n).is_ok()
+    }
+    /// `Heap::copy_slice_to_end(lo..hi)` (cell indices); `false` on allocation failure.
+    pub fn copy_slice_to_end(&mut self, lo: usize, hi: usize) -> bool {
+        self.heap.copy_slice_to_end(lo..hi).is_ok()
+    }
+    /// `Heap::truncate(cells)`.
+    pub fn truncate(&mut self, cells: usize) {
+        self.heap.truncate(cells)
+    }
+    /// `Heap::compute_pstr_size(s)` (bytes).
+    pub fn compute_pstr_size(s: &str) -> usize {
+        crate::machine::heap::Heap::compute_pstr_size(s)
+    }
+    /// The string segment stored at `byte_loc` and the cell index of its tail.
+    pub fn scan(&self, byte_loc: usize) -> (String, usize) {
+        use crate::machine::heap::SizedHeap;
+        let scan = self.heap.scan_slice_to_str(byte_loc);
+        (scan.string.to_string(), scan.tail_idx)
+    }
+    /// A copy of the bytes in use.
+    pub fn bytes(&self) -> Vec<u8> {
+        use crate::machine::heap::SizedHeap;
+        self.heap.as_slice().to_vec()
+    }
+}
